@@ -435,6 +435,23 @@ def catalogue(tier):
     return out
 
 
+# programs whose schedules with 2 deviations do not fit the thorough time cap (measured: > 90 s each on 16 cores); they are
+# explored with 1 deviation, so that a thorough run completes every case at its stated bound instead of being cut
+HEAVY = {"prog=scatterjobs,n=3", "prog=twojobs", "prog=twobranch,n=2", "prog=scatterloop,starts=[0, 2],pred=lt3",
+         "prog=dotjob,n=2", "prog=dotjob,n=3", "prog=cart,n=2,m=3", "prog=jobs,k=3", "prog=scatterjobs,n=4",
+         "prog=scatterloop,starts=[0, 2, 3],pred=lt3", "prog=scatterloop,starts=[0, 2, 3],pred=lt3,method=all",
+         "prog=scatterloop,starts=[3, 3],pred=lt3", "prog=loopjob,pred=lt3", "prog=loopjob,pred=lt3,method=all",
+         "prog=seq_job_scatterjobs,n=2", "prog=twobranch,n=3"}
+
+
+def case_of_light(spec):
+    """as case_of, with the heavy programs limited to one deviation (fault-free explorations C05, C07)"""
+    c = case_of(spec)
+    if "bound" not in c and spec_key(spec) in HEAVY:
+        c["bound"] = 1
+    return c
+
+
 def case_of(spec):
     """catalogue case with the program's own deviation bound, if it has one"""
     b = BOUNDS.get(spec_key(spec))
